@@ -219,7 +219,8 @@ def jlElems : Nat → Bytes → List Bytes → Option (Option (List Bytes))
         | none => none
       | .trunc => some none
       | .unk => none
-    | _ => none
+    | 110 :: _ => none                       -- a `null` element is an entity without any member
+    | _ => some none                         -- no other value decodes into a struct
 
 /-- `none` = the driver abstains -/
 def jsonlineSrc (data : Bytes) : Option JSrc :=
